@@ -17,7 +17,7 @@ Require Import Grits.Base Grits.Forms Grits.Expand Grits.TcTop Grits.Runtime.
 Require Import Grits.RuntimeFootprint Grits.proofs.RuntimeFacts Grits.proofs.Diamond Grits.proofs.Determinism Grits.proofs.AsyncSync Grits.proofs.RuntimeCheckFacts Grits.proofs.ForkJoin Grits.proofs.DeterminismExamples.
 Require Import Grits.Tc Grits.spec.RtTyping Grits.spec.Topo Grits.proofs.RtSafety Grits.proofs.RtInit Grits.proofs.RtTheorems Grits.proofs.DeterminismTyped Grits.proofs.TopoLin Grits.proofs.TopoStep Grits.proofs.TopoReach Grits.proofs.InitLinear.
 Require Import Grits.spec.SynOk Grits.proofs.RtTcSyn Grits.proofs.RtTheoremsTc Grits.proofs.DeterminismTc.
-Require Import Grits.proofs.LinBridge Grits.proofs.InitAccept Grits.proofs.DeterminismAccept Grits.proofs.TopoStepExt Grits.proofs.TopoFinish Grits.proofs.TopoDup Grits.proofs.InvAll Grits.proofs.DeterminismAll Grits.proofs.AsyncSync Grits.proofs.InvNP Grits.proofs.PlainNP Grits.proofs.DeterminismNP Grits.proofs.Balanced Grits.proofs.RtTheoremsTc Grits.proofs.DeterminismFinal Grits.proofs.NPConfluence Grits.proofs.NPCfree Grits.proofs.NPJoin Grits.proofs.NPJoinA Grits.proofs.NPJoinBC Grits.proofs.NPDeterminism Grits.proofs.DeterminismNPCfree Grits.proofs.NPSync Grits.proofs.NPFlush Grits.proofs.NPNegFwd Grits.proofs.NPAgreeNeg Grits.proofs.RtSafetyNP Grits.proofs.StepErrors Grits.ModeDefs Grits.Modes Grits.STypes Grits.Subst.
+Require Import Grits.proofs.LinBridge Grits.proofs.InitAccept Grits.proofs.DeterminismAccept Grits.proofs.TopoStepExt Grits.proofs.TopoFinish Grits.proofs.TopoDup Grits.proofs.InvAll Grits.proofs.DeterminismAll Grits.proofs.AsyncSync Grits.proofs.InvNP Grits.proofs.PlainNP Grits.proofs.DeterminismNP Grits.proofs.Balanced Grits.proofs.RtTheoremsTc Grits.proofs.DeterminismFinal Grits.proofs.NPConfluence Grits.proofs.NPCfree Grits.proofs.NPJoin Grits.proofs.NPJoinA Grits.proofs.NPJoinBC Grits.proofs.NPDeterminism Grits.proofs.DeterminismNPCfree Grits.proofs.NPSync Grits.proofs.NPFlush Grits.proofs.NPNegFwd Grits.proofs.NPAgreeNeg Grits.proofs.NPAgreeNegConv Grits.proofs.RtSafetyNP Grits.proofs.StepErrors Grits.ModeDefs Grits.Modes Grits.STypes Grits.Subst.
 
 Theorem C03_step_is_move : forall md D F c ch, step md D F c ch = sres_of c (move_of md D F c ch).
 Proof. exact step_move. Qed.
@@ -769,6 +769,30 @@ Proof. exact np_polarized_agree_negfwd. Qed.
 Example C03_example_negfwd_accept : negfwd_text example_negfwd_text = true.
 Proof. exact example_negfwd_accept. Qed.
 
+Example C03_example_negfwd_runs :
+  run_text example_negfwd_text NP (fun _ _ => 0%nat) = Some (1%nat, ["served"; "done"], true) /\
+  run_text example_negfwd_text Sync (fun _ _ => 0%nat) = Some (1%nat, ["served"; "done"], true) /\
+  run_text example_negfwd_text Async (fun _ _ => 0%nat) = Some (0%nat, ["served"; "done"], true).
+Proof. exact example_negfwd_runs. Qed.
+
+(* ---- the converse: a complete synchronous run is matched by every long enough non-polarized run *)
+Theorem C03_np_flush_terminates : forall D F teq, teq_laws D teq -> funs_typed D F teq -> funs_aff F -> nofd_funs F -> nfw_funs D F ->
+  forall n c, (size (procs c) <= n)%nat -> JN D F teq c -> quiescent Sync D F c ->
+  exists j t, bsteps (stp NP D F) j c t /\ quiescent NP D F t.
+Proof. exact flush_terminates. Qed.
+
+Theorem C03_polarized_np_agree_negfwd_cfg : forall D F teq, teq_laws D teq -> funs_typed D F teq -> funs_aff F -> nofd_funs F -> nfw_funs D F ->
+  forall c pick1 f1 t1, JN D F teq c -> NF D c -> exec_run f1 pick1 Sync D F c = RQuiescent t1 ->
+  exists n, forall pick2 f2, (n < f2)%nat -> exists t2, exec_run f2 pick2 NP D F c = RQuiescent t2 /\ labels t2 ≡ₚ labels t1.
+Proof. exact sync_np_agree_neg_cfg. Qed.
+
+Theorem C03_polarized_np_agree_negfwd : forall txt p p' pick1 f1 t1,
+  parse_string txt = POk p -> typecheck p = Accept p' -> in_fragment p' -> negfwd_prog_b p' = true ->
+  exec_run f1 pick1 Sync (p_types p') (p_funs p') (init_config p') = RQuiescent t1 ->
+  exists n, forall pick2 f2, (n < f2)%nat ->
+    exists t2, exec_run f2 pick2 NP (p_types p') (p_funs p') (init_config p') = RQuiescent t2 /\ labels t2 ≡ₚ labels t1.
+Proof. exact polarized_np_agree_negfwd. Qed.
+
 Print Assumptions C03_init_linear_accept.
 Print Assumptions C03_topo_runs_core_accept.
 Print Assumptions C03_determinism_core_accept.
@@ -819,3 +843,7 @@ Print Assumptions C03_sync_step_np_exact.
 Print Assumptions C03_np_polarized_agree_negfwd_cfg.
 Print Assumptions C03_np_polarized_agree_negfwd.
 Print Assumptions C03_example_negfwd_accept.
+Print Assumptions C03_example_negfwd_runs.
+Print Assumptions C03_np_flush_terminates.
+Print Assumptions C03_polarized_np_agree_negfwd_cfg.
+Print Assumptions C03_polarized_np_agree_negfwd.
